@@ -2,6 +2,8 @@ package wpool
 
 import (
 	"log/slog"
+
+	"github.com/glebziz/fs_db/internal/verifhook"
 )
 
 func (p *Pool) Stop() {
@@ -11,10 +13,12 @@ func (p *Pool) Stop() {
 		return
 	}
 
+	verifhook.Point("st.beforeCancel")
 	p.cancel()
 	p.sendWg.Wait()
 	p.runWg.Wait()
 
+	verifhook.Point("st.beforeClose")
 	close(p.ch)
 	p.el.Clear()
 }
